@@ -220,7 +220,7 @@ def c01d(ctx, tu):
             if cur.strip():
                 parts.append(cur)
             arity = len(parts)
-            if sorted(set(idx)) != [str(i) for i in range(arity)] or len(idx) != arity:
+            if set(idx) != set(str(i) for i in range(arity)) or len(idx) != arity:
                 ctx.ob("C01.d", "trompeloeil::match_parameters", False, pattern=fn.pat, unit=tu.name, inst=fn.q,
                        detail="all parameters must be matched: for %d parameters the function is instantiated over the "
                        "indices %s" % (arity, idx))
